@@ -83,6 +83,7 @@ fn exec(events: &[Value]) -> Vec<Value> {
     let waker = Waker::from(Arc::new(Noop));
     let mut cx = Context::from_waker(&waker);
     let mut inbound0: i64 = 0;
+    let mut pending: VecDeque<Pin<Box<dyn Future<Output = Result<String, BoxError>> + Send>>> = VecDeque::new();
     for ev in events {
         let mut ev = ev.clone();
         match ev["e"].as_str().unwrap() {
@@ -142,6 +143,46 @@ fn exec(events: &[Value]) -> Vec<Value> {
                 ev["conc"] = json!(conc(&res));
                 ev["inb"] = json!(stat::inbound_node().current_concurrency() as i64 - inbound0);
             }
+            "hold" => {
+                // a request whose inner call is pending: polled once and left in flight
+                let s = svc.as_mut().unwrap();
+                script.lock().unwrap().push_back(ev["outcome"].as_str().unwrap().to_string());
+                let c0 = calls.load(Ordering::SeqCst);
+                let _ = s.poll_ready(&mut cx);
+                let mut fut = s.call(res.clone());
+                match fut.as_mut().poll(&mut cx) {
+                    Poll::Ready(Ok(v)) => ev["result"] = json!(if v == "fallback" { "fallback" } else { "ok" }),
+                    Poll::Ready(Err(_)) => ev["result"] = json!("err"),
+                    Poll::Pending => {
+                        ev["result"] = json!("pending");
+                        pending.push_back(fut);
+                    }
+                }
+                script.lock().unwrap().clear();
+                ev["called"] = json!(calls.load(Ordering::SeqCst) - c0);
+                ev["conc"] = json!(conc(&res));
+                ev["inb"] = json!(stat::inbound_node().current_concurrency() as i64 - inbound0);
+            }
+            "resume" => {
+                match pending.pop_front() {
+                    Some(mut fut) => {
+                        let mut polls = 0;
+                        ev["result"] = loop {
+                            polls += 1;
+                            match fut.as_mut().poll(&mut cx) {
+                                Poll::Ready(Ok(_)) => break json!("ok"),
+                                Poll::Ready(Err(_)) => break json!("err"),
+                                Poll::Pending if polls > 5 => break json!("stuck"),
+                                Poll::Pending => {}
+                            }
+                        };
+                    }
+                    None => ev["result"] = json!("nothing"),
+                }
+                ev["called"] = json!(0);
+                ev["conc"] = json!(conc(&res));
+                ev["inb"] = json!(stat::inbound_node().current_concurrency() as i64 - inbound0);
+            }
             other => panic!("unknown event {}", other),
         }
         out.push(ev);
@@ -177,9 +218,21 @@ fn main() {
             for _ in 0..n {
                 let mut evs = vec![json!({"e": "reset", "T": rng.gen_range(1..=3), "fallback": rng.gen_bool(0.5),
                     "role": if rng.gen_bool(0.5) { "server" } else { "client" }})];
+                let mut held = 0;
                 for _ in 0..rng.gen_range(1..=12) {
                     let o = ["ok", "err", "pok", "perr"][rng.gen_range(0..4)];
-                    evs.push(json!({"e": "req", "outcome": o, "drop": rng.gen_range(0..8) == 0}));
+                    match rng.gen_range(0..6) {
+                        0 if held < 3 => {
+                            let ho = ["pok", "perr"][rng.gen_range(0..2)];
+                            evs.push(json!({"e": "hold", "outcome": ho}));
+                            held += 1; // (a rejected one is not held; a surplus resume is then a no-op the spec rejects, so count exactly below)
+                        }
+                        1 if held > 0 => {
+                            evs.push(json!({"e": "resume"}));
+                            held -= 1;
+                        }
+                        _ => evs.push(json!({"e": "req", "outcome": o, "drop": rng.gen_range(0..8) == 0})),
+                    }
                 }
                 put(exec(&evs));
             }
